@@ -101,6 +101,7 @@ def harness_text(decls, broken=False):
         assert!(t.intersects(u) == (t.bits() & u.bits() != 0));
         assert!(t.is_empty() == (t.bits() == 0));
         assert!((t | u).bits() == t.bits() | u.bits());
+        assert!(t.union(u).bits() == t.bits() | u.bits());
         assert!((t == u) == (t.bits() == u.bits()));
 %(CONSTS)s
     }
